@@ -31,7 +31,8 @@ func runClientConnRT(t *testing.T, seed int64, log *traceLog) {
 	caddr := &net.UDPAddr{IP: net.IPv4(10, 0, 0, 11).To4(), Port: 40001}
 	sconn, cconn := mn.MustListen(saddr), mn.MustListen(caddr)
 	srv := &ccServer{conn: sconn, client: caddr, log: log, rng: rng, relayed: &net.UDPAddr{IP: net.IPv4(10, 0, 0, 1).To4(), Port: 50001}}
-	const writers, rounds = 16, 60
+	const writers = 16
+	rounds := int(envInt("VERIF_RT_ROUNDS", 60))
 	for i := 0; i < writers*rounds; i++ {
 		srv.peers = append(srv.peers, ccPeer{fmt.Sprintf("P%d", i), 1, &net.UDPAddr{IP: net.IPv4(10, byte(2+i/40000), byte((i/200)%200), byte(1+i%200)).To4(), Port: 5001}})
 	}
@@ -118,8 +119,11 @@ func TestClientConnRT(t *testing.T) {
 	for i := 0; i < n; i++ {
 		runClientConnRT(t, seed*1000+int64(i), log)
 	}
-	if err := os.WriteFile(out, []byte(strings.Join(log.lines, "\n")+"\n"), 0o644); err != nil {
+	log.mu.Lock()
+	lines := append([]string{}, log.lines...)
+	log.mu.Unlock()
+	if err := os.WriteFile(out, []byte(strings.Join(lines, "\n")+"\n"), 0o644); err != nil {
 		t.Fatal(err)
 	}
-	t.Logf("recorded %d executions, %d events", n, len(log.lines))
+	t.Logf("recorded %d executions, %d events", n, len(lines))
 }
